@@ -217,6 +217,17 @@ impl<Aux> Vm<'_, Aux> {
         C: VmFunction<Aux> + 'static,
     {
         let key = Handle::from_str(name.as_ref()).unwrap();
+        if let Some(existing) = self.callables.get(key) {
+            if existing.name != name.as_ref() {
+                // functions are looked up by the hash of their name: registering this one would
+                // silently replace another function
+                return Err(ExecutionErrorPayload::invalid_argument(format!(
+                    "Native function name {:?} collides with {:?}",
+                    name.as_ref(),
+                    existing.name
+                )));
+            }
+        }
         self.callables
             .insert(
                 key,
